@@ -48,6 +48,17 @@ def _on_timer(signum, frame):
     raise Budget()
 
 
+class ArgumentFailure(Exception):
+    """Raised by the harness' own argument iterables (never by the code under check)."""
+
+
+def raising(items):
+    """A one-shot iterator that produces items and then fails instead of stopping."""
+    for i in items:
+        yield i
+    raise ArgumentFailure()
+
+
 class KeysObj:
     """The smallest thing dict.update() treats as a mapping: keys() and __getitem__."""
 
@@ -154,6 +165,10 @@ def model_apply(P, op):
     if name == 'add':
         return ok(None, P + [(op[1], op[2])])
     if name == 'addlist':
+        if op[1] == 'raising-generator':
+            # the argument fails after producing op[3]: the failure reaches the caller, and the mapping is a list of
+            # pairs to which some prefix of the produced values was appended (the statement does not say which)
+            return [(('exc', 'ArgumentFailure'), P + [(op[2], v) for v in op[3][:n]]) for n in range(len(op[3]) + 1)]
         return ok(None, P + [(op[2], v) for v in op[3]])
     if name == 'set':
         return ok(None, m_without(P, (op[1],)) + [(op[1], op[2])])
@@ -161,6 +176,13 @@ def model_apply(P, op):
         if not m_has(P, op[1]):
             return exc('KeyError')
         return ok(None, m_without(P, (op[1],)))
+    if name in ('update', 'ior', 'update_extend') and op[1] == 'raising-gen':
+        # as above: the failure of the argument reaches the caller, some prefix of the produced pairs was applied
+        cands = []
+        for n in range(len(op[2]) + 1):
+            sub = (name, 'pairs', op[2][:n]) + ((),) * (name == 'update')
+            cands += [(('exc', 'ArgumentFailure'), P2) for _, P2 in model_apply(P, sub)]
+        return cands
     if name in ('update', 'ior'):
         kw = op[3] if len(op) > 3 else ()
         if op[1] == 'self':
@@ -246,6 +268,8 @@ def operand(shape, pairs, cls, self_obj=None):
         return [list(p) for p in pairs]
     if shape == 'gen':
         return (p for p in pairs)
+    if shape == 'raising-gen':
+        return raising(pairs)
     if shape == 'self':
         return self_obj
     raise AssertionError(shape)
@@ -261,6 +285,8 @@ def values_arg(shape, vals):
         return iter(vals)
     if shape == 'generator':
         return (v for v in vals)
+    if shape == 'raising-generator':
+        return raising(vals)
     if shape == 'range':
         assert vals == list(range(len(vals)))
         return range(len(vals))
@@ -507,6 +533,13 @@ class Spec:
               ('addlist', 'empty-list', k1, ()), ('addlist', 'empty-tuple', k1, ())]
         if V[:2] == (0, 1):
             m.append(('addlist', 'range', k1, (0, 1)))
+        # arguments that fail while they are being consumed (before the first item, after one, after two; key new or
+        # present, by state): the mapping must stay a consistent list of pairs, and the search goes on from there
+        for k in K:
+            m.append(('addlist', 'raising-generator', k, ()))
+        m += [('addlist', 'raising-generator', k1, (V[0],)), ('addlist', 'raising-generator', K[0], (V[1], V[0])),
+              ('update', 'raising-gen', O['P3'], ()), ('update_extend', 'raising-gen', O['P2']),
+              ('ior', 'raising-gen', O['P1'])]
         same = self.clsname != 'dictutils.OrderedMultiDict'
         for shape, names in (('dict', ('P0', 'P1', 'P4')), ('proxy', ('P4',)), ('keysobj', ('P1',)),
                              ('omd', ('P0', 'P1', 'P2', 'P3')), ('same', ('P3',) if same else ()),
@@ -891,6 +924,324 @@ class Spec:
 
 
 # ----------------------------------------------------------------------------------------------------
+# Directed part (exhaustive over its own small space): values that refer back to the mapping.
+# "Arbitrary values" include the mapping itself, a container holding it, or a child mapping with a reference to its
+# parent.  The reference is a graph of plain lists: a PairList per mapping.  Values are compared by *identity*: mutable
+# objects are numbered in first-visit order of a walk over (source, result of the operation), so "the copy's value is
+# the copy itself", "both pairs hold the same list" and "the shallow copy holds the source's objects" are all part of
+# the compared form.  Reads that recurse into the values on the plain-list reference too (==, sorted) or render them
+# (repr: a list shows [...]) and inverted() (unhashable values) are not part of this search.
+
+class PairList(list):
+    """Reference model of one mapping inside a graph of values: the list of its (key, value) pairs."""
+
+
+REF = '<REF>'
+CYC_WRAPS = ('self', 'list', 'tuple', 'dict', 'child', 'shared-list')
+CYC_TAG = 'cyclic-values'
+
+
+def cyc_pairlists(maxlen):
+    """Every pair list of 1..maxlen pairs over keys a/b and values 0/REF holding at least one REF, shortest first."""
+    out = []
+    for n in range(1, maxlen + 1):
+        for i in range((2 * 2) ** n):
+            pl, j = [], i
+            for _ in range(n):
+                pl.append(('ab'[j % 2], (0, REF)[(j // 2) % 2]))
+                j //= 4
+            if any(v == REF for _, v in pl):
+                out.append(tuple(pl))
+    return out
+
+
+def cyc_build(cls, pairs, wrap, how):
+    """-> (real mapping, its PairList model); every REF is one and the same object of the shape named by wrap."""
+    d, m = cls(), PairList()
+    m.cls = cls.__name__
+    if wrap == 'self':
+        rd, rm = d, m
+    elif wrap == 'list':
+        rd, rm = [d], [m]
+    elif wrap == 'tuple':
+        rd, rm = (d, 0), (m, 0)
+    elif wrap == 'dict':
+        rd, rm = {'p': d}, {'p': m}
+    elif wrap == 'child':
+        rd, rm = cls(), PairList([('parent', m), ('n', 1), ('parent', 0)])
+        rm.cls = cls.__name__
+        rd.add('parent', d)
+        rd.add('n', 1)
+        rd.add('parent', 0)
+    elif wrap == 'shared-list':
+        rd, rm = [0], [0]            # no cycle: one mutable object held by several pairs stays one object in a deep copy
+    else:
+        raise AssertionError(wrap)
+    real = [(k, rd if v == REF else v) for k, v in pairs]
+    if how == 'add':
+        for k, v in real:
+            d.add(k, v)
+    elif how == 'update_extend':
+        d.update_extend(real)
+    else:
+        raise AssertionError(how)
+    m.extend((k, rm if v == REF else v) for k, v in pairs)
+    return d, m
+
+
+def is_atom(x):
+    return x is None or type(x) in (int, str, bool, float)
+
+
+def graph(x, table, keep):
+    """Address-free form of an object graph; non-atomic objects are numbered in first-visit order."""
+    if is_atom(x):
+        return x
+    n = table.get(id(x))
+    if n is not None:
+        return ('ref', n)
+    n = table[id(x)] = len(table)
+    keep.append(x)
+    if isinstance(x, PairList):
+        return ('mapping', n, x.cls, [(graph(k, table, keep), graph(v, table, keep)) for k, v in list(x)])
+    if isinstance(x, base_omd()):
+        return ('mapping', n, type(x).__name__,
+                [(graph(k, table, keep), graph(v, table, keep)) for k, v in x.items(multi=True)])
+    if type(x) in (list, tuple):
+        return (type(x).__name__, n, [graph(i, table, keep) for i in x])
+    if type(x) is dict:
+        return ('dict', n, [(graph(k, table, keep), graph(v, table, keep)) for k, v in x.items()])
+    return ('<%s object>' % type(x).__name__, n)
+
+
+def tok(table):
+    def T(v):
+        return v if is_atom(v) else ('object', table.get(id(v), '<not part of the graph>'))
+    return T
+
+
+def cyc_reads_model(m, T):
+    P = list(m)
+    tv = lambda ps: [(k, T(v)) for k, v in ps]                                          # noqa: E731
+    keys, vis, lists = m_keys(P), m_visible(P), m_lists(P)
+    out = {}
+    out['items'] = out['iteritems'] = [(k, T(vis[k])) for k in keys]
+    out['items(multi)'] = out['iteritems(multi)'] = tv(P)
+    out['keys'] = out['iterkeys'] = out['iter'] = list(keys)
+    out['keys(multi)'] = out['iterkeys(multi)'] = [k for k, _ in P]
+    out['values'] = out['itervalues'] = [T(vis[k]) for k in keys]
+    out['values(multi)'] = out['itervalues(multi)'] = [T(v) for _, v in P]
+    out['reversed'] = keys[::-1]
+    out['len'] = len(keys)
+    for k in ('a', 'b', 'zz'):
+        out['get %s' % k] = T(vis.get(k))
+        out['get(default) %s' % k] = T(vis.get(k, 'D'))
+        out['getlist %s' % k] = [T(v) for v in lists.get(k, [])]
+        out['getitem %s' % k] = T(vis[k]) if k in vis else 'raised KeyError'
+        out['in %s' % k] = k in vis
+    out['todict'] = {k: T(v) for k, v in vis.items()}
+    out['todict(multi)'] = {k: [T(v) for v in vs] for k, vs in lists.items()}
+    out['counts'] = [(k, len(lists[k])) for k in keys]
+    ls = {k: [T(v) for v in vs] for k, vs in lists.items()}
+    out['state'] = {'pairs': tv(P), 'pairs(backward-links)': tv(P), 'dict-lists': ls, 'cell-index': ls,
+                    'cell-index-holds-the-linked-cells': True}
+    return out
+
+
+def cyc_reads_impl(d, T):
+    out = {}
+    tv = lambda ps: [(k, T(v)) for k, v in ps]                                          # noqa: E731
+
+    def g(nm, fn):
+        try:
+            out[nm] = fn()
+        except Exception as e:
+            out[nm] = 'raised ' + type(e).__name__
+    g('items', lambda: tv(d.items()))
+    g('iteritems', lambda: tv(d.iteritems()))
+    g('items(multi)', lambda: tv(d.items(multi=True)))
+    g('iteritems(multi)', lambda: tv(d.iteritems(multi=True)))
+    g('keys', lambda: list(d.keys()))
+    g('iterkeys', lambda: list(d.iterkeys()))
+    g('iter', lambda: list(d))
+    g('keys(multi)', lambda: list(d.keys(multi=True)))
+    g('iterkeys(multi)', lambda: list(d.iterkeys(multi=True)))
+    g('values', lambda: [T(v) for v in d.values()])
+    g('itervalues', lambda: [T(v) for v in d.itervalues()])
+    g('values(multi)', lambda: [T(v) for v in d.values(multi=True)])
+    g('itervalues(multi)', lambda: [T(v) for v in d.itervalues(multi=True)])
+    g('reversed', lambda: list(reversed(d)))
+    g('len', lambda: len(d))
+    for k in ('a', 'b', 'zz'):
+        g('get %s' % k, lambda: T(d.get(k)))
+        g('get(default) %s' % k, lambda: T(d.get(k, 'D')))
+        g('getlist %s' % k, lambda: [T(v) for v in d.getlist(k)])
+        g('getitem %s' % k, lambda: T(d[k]))
+        g('in %s' % k, lambda: k in d)
+
+    def todict(multi):
+        x = d.todict(multi=True) if multi else d.todict()
+        if type(x) is not dict:
+            return '<%s object, expected a plain dict>' % type(x).__name__
+        return {k: [T(i) for i in v] for k, v in x.items()} if multi else {k: T(v) for k, v in x.items()}
+    g('todict', lambda: todict(False))
+    g('todict(multi)', lambda: todict(True))
+
+    def counts():
+        c = d.counts()
+        return list(c.items(multi=True)) if type(c) is type(d) else '<%s object>' % type(c).__name__
+    g('counts', counts)
+
+    def state():
+        cells, fwd = _walk(d, NEXT)
+        _, back = _walk(d, PREV)
+        st = {'pairs': tv(fwd) if isinstance(fwd, tuple) else fwd,
+              'pairs(backward-links)': tv(reversed(back)) if isinstance(back, tuple) else back,
+              'dict-lists': {k: [T(v) for v in vs] for k, vs in dict.items(d)},
+              'cell-index': {k: [T(c[VALUE]) for c in cs] for k, cs in d._map.items()}}
+        mine = {}
+        for c in cells or ():
+            mine.setdefault(c[KEY], []).append(c)
+        st['cell-index-holds-the-linked-cells'] = (
+            set(mine) == set(d._map) and all(len(mine[k]) == len(d._map[k]) and
+                                             all(a is b for a, b in zip(mine[k], d._map[k])) for k in mine))
+        return st
+    g('state', state)
+    return out
+
+
+def cyc_ops():
+    return [('copy',), ('copy.copy',), ('copy.deepcopy',)] + [('pickle', p) for p in PICKLE_PROTOCOLS]
+
+
+def cyc_compare(objs_i, objs_m, bad, where, opname):
+    """Joint graph of the real objects against the joint graph of the reference lists, then every mapping in the graph
+    read through the (identity-comparing) battery.  -> True when the graphs agree."""
+    ti, tm, keep_i, keep_m = {}, {}, [], []
+    try:
+        gi = [graph(o, ti, keep_i) for o in objs_i]
+    except Exception as e:
+        gi = 'raised ' + type(e).__name__
+    gm = [graph(o, tm, keep_m) for o in objs_m]
+    if gi != gm:
+        bad('C01|op:%s|%s:%s' % (opname, CYC_TAG, where), gm, gi)
+        return False
+    Ti, Tm = tok(ti), tok(tm)
+    for oi, om in zip(keep_i, keep_m):
+        if not isinstance(om, PairList):
+            continue
+        ri, rm = cyc_reads_impl(oi, Ti), cyc_reads_model(om, Tm)
+        for nm in rm:
+            if ri.get(nm) != rm[nm]:
+                short = nm.split(' ')[0]
+                if short == 'state':
+                    diff = [k for k in rm[nm] if not isinstance(ri[nm], dict) or ri[nm].get(k) != rm[nm][k]]
+                    bad('C01|op:%s|%s:state:%s' % (opname, CYC_TAG, diff[0]), rm[nm], ri[nm])
+                else:
+                    bad('C01|read:%s|%s' % (short, CYC_TAG), rm[nm], ri.get(nm))
+    return True
+
+
+def cyc_group(group):
+    """One (class, pair list, wrap, build) group: the built mapping, then every copying operation on a fresh build.
+    -> (violations, number of cases)"""
+    clsname, pairs, wrap, how = group
+    cls = resolve(clsname)
+    V, n = [], 0
+    for op in [None] + cyc_ops():
+        n += 1
+        case = {'kind': CYC_TAG, 'class': clsname, 'pairs': [list(p) for p in pairs], 'wrap': wrap, 'build': how,
+                'op': list(op) if op else None}
+        seen = set()
+
+        def bad(sig, exp, obs):
+            if sig not in seen:
+                seen.add(sig)
+                V.append((sig, case, plain(exp), plain(obs), None, (CYC_TAG,)))
+        signal.setitimer(signal.ITIMER_VIRTUAL, STEP_CPU_S)
+        try:
+            cyc_one(cls, pairs, wrap, how, op, bad)
+        except Budget:
+            bad('C01|op:%s|%s:terminates' % (opsig(op) if op else how, CYC_TAG), 'the operation and the reads return',
+                'no result after %g s of CPU time' % STEP_CPU_S)
+        finally:
+            signal.setitimer(signal.ITIMER_VIRTUAL, 0)
+    return V, n
+
+
+def cyc_one(cls, pairs, wrap, how, op, bad):
+    try:
+        d, m = cyc_build(cls, pairs, wrap, how)
+    except Exception as e:
+        if op is None:
+            bad('C01|op:%s|%s:result' % (how, CYC_TAG), 'returns', 'raised ' + type(e).__name__)
+        return
+    if op is None:
+        cyc_compare([d], [m], bad, 'pairs', how)
+        return
+    name = opsig(op)
+    mc = copymod.copy(m) if op[0] in ('copy', 'copy.copy') else copymod.deepcopy(m)
+    try:
+        dc = copy_fn(op)(d)
+    except Exception as e:
+        bad('C01|op:%s|%s:result' % (name, CYC_TAG), 'a copy', 'raised ' + type(e).__name__)
+        return
+    if type(dc) is not cls:
+        bad('C01|op:%s|%s:type' % (name, CYC_TAG), cls.__name__, type(dc).__name__)
+        return
+    if not cyc_compare([d, dc], [m, mc], bad, 'graph', name):
+        return
+    # the two objects are independent: emptying and refilling one leaves the other (and what it holds) as it was
+    for a, b, am, bm, what in ((dc, d, mc, m, 'source'), (d, dc, m, mc, 'copy')):
+        try:
+            a.add('zz', 'x')
+            a.clear()
+            a.add('b', 'y')
+        except Exception as e:
+            bad('C01|op:%s|%s:result-is-usable' % (name, CYC_TAG), 'add/clear return', 'raised ' + type(e).__name__)
+            return
+        am.append(('zz', 'x'))
+        del am[:]
+        am.append(('b', 'y'))
+        if not cyc_compare([b, a], [bm, am], bad, 'not-independent(%s-moved)' % what, name):
+            return
+
+
+def run_cyclic(ctx):
+    maxlen = 3 if ctx.quick() else 4
+    groups = []
+    for pairs in cyc_pairlists(maxlen):
+        for wrap in CYC_WRAPS:
+            groups.append(('dictutils.OrderedMultiDict', pairs, wrap, 'add'))
+            groups.append(('dictutils.OrderedMultiDict', pairs, wrap, 'update_extend'))
+            groups.append(('urlutils.QueryParamDict', pairs, wrap, 'add'))
+
+    def shard(gs):
+        signal.signal(signal.SIGVTALRM, _on_timer)
+        V, n = [], 0
+        for g in gs:
+            v, k = cyc_group(g)
+            V += v
+            n += k
+        return V, n
+    total = 0
+    for V, n in core.pmap(shard, [groups[i::16] for i in range(16)]):
+        total += n
+        for v in V:
+            ctx.violation(*v)
+    ctx.note('values referring back to the mapping: %d value graphs, %d cases (build + every copying operation)'
+             % (len(groups), total))
+    return {'rule': 'every pair list of 1..%d pairs over keys a/b and values 0/REF with >= 1 REF, REF being each of %s, '
+                    'built by add / update_extend; then copy(), copy.copy, copy.deepcopy and pickle under every '
+                    'protocol on a fresh build; the joint object graph of (source, copy) and every identity-safe read '
+                    'of every mapping in it are compared with the same operation on plain lists of pairs'
+                    % (maxlen, list(CYC_WRAPS)),
+            'value_graphs': len(groups), 'cases': total, 'exhaustive': True,
+            'sample': {'kind': CYC_TAG, 'class': groups[-1][0], 'pairs': [list(p) for p in groups[-1][1]],
+                       'wrap': groups[-1][2], 'build': groups[-1][3], 'op': ['copy.deepcopy']}}
+
+
+# ----------------------------------------------------------------------------------------------------
 
 def configs(tier):
     L = 4 if tier == 'quick' else 5
@@ -959,6 +1310,7 @@ def _run(ctx, parts, scratch):
     seen_ok = {k.split(' -> ')[0] for k in cov['op_result_table'] if k.endswith(' -> ok')}
     cov['menu_ops_never_succeeding'] = [o for o in menu_ops if o not in seen_ok]
     cov['op_shapes_stopped_after_exhausting_cpu_budget'] = sorted(os.listdir(scratch))
+    cov['values_referring_back_to_the_mapping'] = run_cyclic(ctx)
     ctx.assumptions += [
         'keys/values are ints, short strings and None with well-behaved __eq__/__hash__',
         'popitem(): removing the last pair, or some present key with all its pairs, are both accepted (DESIGN 5.1)',
@@ -972,6 +1324,8 @@ def _run(ctx, parts, scratch):
 
 def replay(ctx, data):
     case = data['case']
+    if case.get('kind') == CYC_TAG:
+        return replay_cyclic(case, data.get('signature'))
     spec = Spec.from_config(case['config'])
     hist = [detuple(op) for op in case['history']]
     msgs = []
@@ -994,4 +1348,23 @@ def replay(ctx, data):
                 msgs.append('step %d %r: %s expected=%r observed=%r' % (i, hist[i], v[0], v[2], v[3]))
         if not ok:
             break
+    return msgs
+
+
+def replay_cyclic(case, want):
+    msgs = []
+
+    def bad(sig, exp, obs):
+        if want in (None, sig):
+            msgs.append('%s expected=%r observed=%r' % (sig, plain(exp), plain(obs)))
+    signal.signal(signal.SIGVTALRM, _on_timer)
+    signal.setitimer(signal.ITIMER_VIRTUAL, 10 * STEP_CPU_S)
+    op = detuple(case['op']) if case['op'] else None
+    try:
+        cyc_one(resolve(case['class']), detuple(case['pairs']), case['wrap'], case['build'], op, bad)
+    except Budget:
+        msgs.append('no result after %g s of CPU time (C01|op:%s|%s:terminates)'
+                    % (10 * STEP_CPU_S, opsig(op) if op else case['build'], CYC_TAG))
+    finally:
+        signal.setitimer(signal.ITIMER_VIRTUAL, 0)
     return msgs
